@@ -5,6 +5,7 @@ import (
 	"encoding/json"
 	"fmt"
 	"math/rand"
+	"os"
 	"path/filepath"
 	"strings"
 	"testing"
@@ -105,10 +106,22 @@ func (e *vEnv) pruneFull(opts PruneOptions, full bool) (error, *vPruneStatsJSON)
 	return err, stats
 }
 
+// vc10HasContent: some file of l has the content of file p (vGenFiles: the base name determines the content).
+func vc10HasContent(l []vFile, p string) bool {
+	for _, f := range l {
+		if filepath.Base(f.Path) == filepath.Base(p) {
+			return true
+		}
+	}
+	return false
+}
+
 func TestVerif_C10(t *testing.T) {
 	res := kit.NewResult("one case = one completed full prune (max-unused=0, unlimited repack) on a generated history with waste of the kinds {forgotten snapshots, orphan packs of a crashed backup, duplicates of an interrupted prune, a missing pack holding only unused blobs, many small packs}; judged by RepoTrace.tla NoWaste + PruneStatsOK on the recorded pre/post storage and by the real check; distinct by (history seed); non-trivial when the prune changed the repository")
 	tr := kit.NewNDJSON("trace.ndjson")
 	defer tr.Close()
+	recs := kit.NewNDJSON("recs_index.ndjson")
+	defer recs.Close()
 	nh := kit.Pick(14, 200)
 	for hi := 0; hi < nh; hi++ {
 		seed := kit.Seed()*100000 + 1000 + int64(hi)
@@ -130,8 +143,29 @@ func TestVerif_C10(t *testing.T) {
 		var ids []string
 		bad := false
 		big := r.Intn(4) == 0 && nb < 6
+		// crafted-duplicates histories: the second backup keeps a strict subset of the first one's files and the
+		// first snapshot is forgotten, so the blobs the remaining snapshots need share their pack with unneeded
+		// ones; later copies of such blobs are crafted into further packs (vc10CraftDupPacks)
+		crafted := hi%5 == 1 || hi%5 == 2
+		var prev []vFile
 		for i := 0; i < nb && !bad; i++ {
 			files := vGenFiles(r, 2+r.Intn(5), 12, big)
+			if crafted && i == 0 && len(files) < 3 {
+				files = vGenFiles(r, 3+r.Intn(4), 12, false)
+			}
+			if crafted && i == 1 {
+				k := 1 + r.Intn(len(prev)-1)
+				seen := map[string]bool{}
+				var fl []vFile
+				for _, f := range append(append([]vFile{}, prev[:k]...), files...) {
+					if !seen[f.Path] && !(len(fl) >= k && vc10HasContent(prev, f.Path)) {
+						seen[f.Path] = true
+						fl = append(fl, f)
+					}
+				}
+				files = fl
+			}
+			prev = files
 			vWriteTree(t, src, files)
 			before := map[string]map[string]string{}
 			for k, v := range want {
@@ -157,8 +191,9 @@ func TestVerif_C10(t *testing.T) {
 		// waste kind: forgotten snapshots
 		if hi%5 != 3 && len(ids) > 1 {
 			var fg []string
-			for _, id := range ids[:len(ids)-1] {
-				if r.Intn(2) == 0 {
+			for idx, id := range ids[:len(ids)-1] {
+				// crafted-duplicates histories: the first snapshot goes, the second one stays
+				if (r.Intn(2) == 0 && !(crafted && idx == 1)) || (crafted && idx == 0) {
 					fg = append(fg, id)
 					delete(keep, id)
 				}
@@ -215,6 +250,43 @@ func TestVerif_C10(t *testing.T) {
 				kinds = append(kinds, "missing-unneeded-pack")
 			}
 		}
+		// waste kind: copies of needed blobs in further packs, in company of unneeded blobs and of blobs that only
+		// a later snapshot needs (every pack holding a copy may have to be rewritten in the same run)
+		if crafted {
+			lay := vc10Layout{packs: 1 + r.Intn(3), companions: "used+junk", perPack: 1 + r.Intn(3), trees: r.Intn(3) == 0}
+			if hi%5 == 2 {
+				lay.companions = "random"
+			}
+			ufiles, desc, err := vc10CraftDupPacks(t, e, lay, r)
+			if err != nil {
+				res.Problem("history %d (%v): crafting duplicates failed: %v", seed, kinds, err)
+				continue
+			}
+			kinds = append(kinds, desc)
+			if len(ufiles) > 0 {
+				files := append(append([]vFile{}, ufiles...), vGenFiles(r, 1+r.Intn(3), 12, false)...)
+				vWriteTree(t, src, files)
+				before := map[string]map[string]string{}
+				for k, v := range want {
+					before[k] = v
+				}
+				for _, id := range ids {
+					if _, ok := before[id]; !ok {
+						before[id] = nil
+					}
+				}
+				if err := e.backup(src, []string{"."}, BackupOptions{}); err != nil {
+					res.Problem("history %d backup after crafting: %v", seed, err)
+					continue
+				}
+				for _, id := range vNewSnapshots(e, before) {
+					want[id] = vExpect(files)
+					ids = append(ids, id)
+					keep[id] = true
+				}
+			}
+			res.Count("crafted_duplicate_histories", 1)
+		}
 		opts := PruneOptions{MaxUnused: "0"}
 		if r.Intn(3) == 0 {
 			opts.SmallPackSize = "16M"
@@ -228,6 +300,13 @@ func TestVerif_C10(t *testing.T) {
 		if stats == nil {
 			res.Problem("history %d: no prune statistics found in output", seed)
 			continue
+		}
+		// the index as a reopened repository sees it, with multiplicity (judged by Fn_PruneIndex.tla)
+		if rec, err := vc10IndexRecord(e, seed, stats.Blobs.Remain); err != nil {
+			res.Violate("prune-full/after/index-unreadable", fmt.Sprintf("history %d (%v): after full prune the index cannot be loaded or the snapshots cannot be walked: %v", seed, kinds, err), map[string]any{"history": seed})
+		} else {
+			rec["waste"] = strings.Join(kinds, ",")
+			recs.Write(rec)
 		}
 		var keepIDs []string
 		for id := range keep {
@@ -250,7 +329,13 @@ func TestVerif_C10(t *testing.T) {
 		after := len(e.store.Names(backend.PackFile))
 		res.Case(fmt.Sprintf("%d", seed), before != after || stats.Blobs.RemoveTotal > 0)
 		for _, k := range kinds {
+			if i := strings.Index(k, "("); i > 0 {
+				k = k[:i]
+			}
 			res.Count("kind_"+k, 1)
+		}
+		if os.Getenv("VERIF_C10_DEBUG") != "" {
+			fmt.Fprintf(os.Stderr, "C10DBG %d %v %+v\n", seed, kinds, vStatsEv(*stats))
 		}
 		res.Sample(map[string]any{"history": seed, "version": version, "backups": nb, "waste": kinds, "stats": vStatsEv(*stats)})
 		tr.Write(kit.Ev{"ev": "Reset", "proc": "env", "history": seed, "desc": strings.Join(kinds, ",")})
